@@ -864,6 +864,15 @@ func checkSharedCounters(w *World, r *Report, rule string, fns []*ssa.Function, 
 					if _, fromIdx := u.X.(*ssa.IndexAddr); fromIdx {
 						ops = []ssa.Value{u.X}
 					}
+					// a local slot (a result spilled because of a defer, a variable assigned on
+					// several paths): what was stored into it
+					if al, isAl := u.X.(*ssa.Alloc); isAl && al.Referrers() != nil {
+						for _, ref := range *al.Referrers() {
+							if st, ok := ref.(*ssa.Store); ok && st.Addr == ssa.Value(al) {
+								ops = append(ops, st.Val)
+							}
+						}
+					}
 				}
 				for _, o := range ops {
 					if o == nil {
